@@ -16,7 +16,10 @@ META = {
         'order from the same ordered attribute (never a set, a sorted copy or '
         'a reversed view): Cell.add/_args, RangesAssembler.add/__call__, the '
         'inverse assembler\'s outputs, and the compiled formula\'s input '
-        'mapping.'),
+        'mapping; (snapshot) a local copy of the derived `references` property '
+        'is never used after a call that can load a workbook without being '
+        're-read, so the names a cell is compiled with do not depend on the '
+        'order in which the work-list met the workbooks.'),
     'not_decided': (
         'That each formula cell holds the value of its formula (the fixed '
         'point), range/blank wiring and equality of the two load paths.'),
@@ -230,6 +233,8 @@ def run(ctx):
     for rel in SCOPE:
         funcs += ctx.project.module(rel).all_funcs
     from .common import rule_cachekey
+    from .modelstate import rule_snapshot
     return [rule_ord(ctx, funcs, prop='C03', rule='C03.ord', floor=5),
             rule_pair(ctx),
+            rule_snapshot(ctx, 'C03', 'C03.snapshot'),
             rule_cachekey(ctx, 'C03', 'C03.cachekey', SCOPE)]
